@@ -26,5 +26,6 @@ Expected(in) == LET e == Norm(in.ast) p == PathsOf(in) IN
 Conforms(in, obs) == "panic" \notin DOMAIN obs /\ "exit" \notin DOMAIN obs /\ obs.m = Expected(in)
 Describe(in) == [m |-> Expected(in)]
 
+Beyond(in) == FALSE
 INSTANCE TraceCheck
 =============================================================================
